@@ -138,3 +138,15 @@ def lean_lemmas(run, names):
     ok = p.returncode == 0 and "error" not in p.stdout
     run.add("lean:lemmas/Arith.lean(" + ",".join(names) + ")", [], z3.BoolVal(ok), "side", {"backend": "lean", "time_s": round(time.time() - t0, 1)},
             {"stdout": p.stdout[-500:]})
+
+
+def flat_unflat_hints(ids, dims):
+    """Instances of lemmas/Arith.lean flat_div / flat_mod for the row-major flattening of in-bounds indices ids over dims:
+    with f_t = (...(i0*d1 + i1)*d2 + ...) + i_t :   f_t / d_t == f_{t-1}   and   f_t % d_t == i_t."""
+    out = []
+    acc = zi(ids[0])
+    for t in range(1, len(ids)):
+        nxt = acc * zi(dims[t]) + zi(ids[t])
+        out.append(z3.And(nxt / zi(dims[t]) == acc, nxt % zi(dims[t]) == zi(ids[t])))
+        acc = nxt
+    return out
